@@ -6,6 +6,10 @@ V = os.path.dirname(os.path.dirname(os.path.abspath(__file__)))
 TECH = 'contract-based deductive verification: VCs generated from the real function ASTs by pyvc (sidecar contracts), discharged by z3 raced with cvc5'
 
 CLAIMED = {
+ 'C01': dict(
+   text="Deductive, for the mechanisms that keep a run going: ASTBuilder.parseFile / parseString let no exception of the parser out (SyntaxError, ValueError, RecursionError), report the file against its module and cache the outcome; parseAll / parseDocformat evaluate the metadata variables without letting literal_eval's ValueError/TypeError out (loop invariant); the module scheduler System.process / processModule / getProcessedModule is verified as a state machine under an explicit invariant (the waiting list holds exactly the registered UNPROCESSED modules, each once): none of its five assertions can fail, ValueError from list.remove cannot occur, the processing stack is balanced, each call strictly shrinks the list, and process() terminates (variant) with an empty list; pages.format_signature lets nothing out and reports against the function (or the overload's primary).",
+   note="Assumed: the documented exceptions of ast.parse / literal_eval; ASTBuilder.processModuleAST (the whole AST visitor, extensions and re-entrant imports) preserves the scheduler invariant and raises nothing - that is the part the bounded native harness probes (real driver in-process on 106 module texts, 16 trees, random line/token mutations, 13 standard-library modules and mutations of them, docformats rotating; exit status, written files, sibling documented, unparsable file named). Not under contract: the visitor, post-processing, the template writer, flattening, search index, inventory writer. Known finding KF-C01-lone-surrogate. Options other than --docformat are outside the property's quantifier and are not explored (observations: --prepend-package with an import of the fake package, and hiding every object, abort).",
+   ref='6 C01'),
  'C08': dict(
    text="Deductive, for the containment layer (given that parsers and renderers may raise any Exception): no exception leaves get_parser_by_name other than the documented ImportError (after the fix), none leaves parse_docstring, safe_to_stan, format_docstring_fallback, ParsedDocstring.get_summary, get_toc, ensure_parsed_docstring, _get_parsed_summary or format_summary; when a parser gives up the result is the plain-text parse of the complete original text (ParsedPlaintextDocstring with _text == doc, rendered as plain_stan(text) - plaintext.parse_docstring and ParsedPlaintextDocstring.to_stan are verified too), an internal parser failure becomes an error of that docstring, and whatever is reported is reported once against the object that holds the docstring and in its section; the stan fallback is used exactly when the conversion failed; the summary is cached; an already parsed docstring is never parsed again.",
    note="Assumed (the documented interfaces): ParserFunction/to_stan/to_node/docutils walk raise only Exception subclasses; import_module raises only ImportError; fallback callables do not raise; to_node raises only NotImplementedError for get_toc (explicit precondition `not fragile_node`, so format_toc is NOT under contract); reportErrors/System.msg verified under C16. Termination, the parsers themselves (epytext, docutils, napoleon), format_docstring's field handling, flattening to HTML, 'no other object is affected' and 'docutils-recovered problems are reported' are decided only by the bounded native harness (fragment fuzzing x 5 docformats x process-types x 8 object kinds, 60 s per docstring). Known finding KF-C08-lone-surrogate.",
